@@ -151,6 +151,15 @@ and ref_op_raw c : int * obj * (unit -> bool option) option =
       let gs = gens_hint x in
       if not (has_point gs) && not (has_point g) then raise (Skip "no point into an empty polyhedron");
       id, upd (sys_of_gens n (gs @ g)), none
+  | "add_generators_from" ->
+      (* the generators of another object (of either topology), as the library hands them out, added one by one:
+         points first; closure points are skipped when the receiver is closed *)
+      let y = get (nexti c) in
+      if y.dim <> n then raise (Skip "dimension-incompatible");
+      let g1 = gens_hint x and g2 = gens_hint y in
+      let g2 = List.filter (fun g -> match g.gk with GClosure -> x.topo = "NNC" | _ -> true) g2 in
+      if not (has_point g1) && not (has_point g2) then raise (Skip "no point into an empty polyhedron");
+      id, upd (sys_of_gens n (g1 @ g2)), none
   | "intersection_assign" -> let y = get (nexti c) in id, upd (union_sys x.s y.s), none
   | "poly_hull_assign" | "upper_bound_assign" ->
       let y = get (nexti c) in
@@ -568,11 +577,9 @@ let () =
               | Some v, Some b -> report ("op:" ^ name ^ "/ret") line (if b = (v = "1") then Ok else Fail (Printf.sprintf "returned %s but the meet with the context is %s" v (if b then "non-empty" else "empty")))
               | _, None -> report ("op:" ^ name ^ "/ret") line Undecided
               | _ -> ());
-             (match meet_ne with
-              | Some true ->
-                (* theorem C02_simplify_using_context: true iff the result is a meet-preserving enlargement *)
-                report ("op:" ^ name ^ "/value") line (of_ob true (timed (fun () -> suc_check dn x0.s y.s rs) None))
-              | _ -> ());
+             (* theorem C02_simplify_using_context: true iff the result is a meet-preserving enlargement of the receiver
+                (when the meet is empty this says: the result is still disjoint from the context) *)
+             report ("op:" ^ name ^ "/value") line (of_ob true (timed (fun () -> suc_check dn x0.s y.s rs) None));
              resync id0 st
            | Skip why ->
              bump ("unmodelled:" ^ name);
